@@ -374,6 +374,19 @@ def run(tier):
         'TLC 1.8 on spec/Topology.tla supplies the pulse table; harness/lattice.py evaluates the MININEC-3 formulation on it with the surrogate kernel and seeded lattice coordinates',
         'Mininec.psi is replaced in the harness process only (no change to the repository); the replacement honours the calling contract of psi (length = |scale| * seg_len of the half selected by the sign of scale)',
         'radius >= 1e-4 wavelength, so every self term goes through psi (the closed-form small-radius branch is outside this check)']
+    # FillPlan.tla on the models TLC enumerates itself (thorough: single objects up to 5 segments, chains 3 + 3), and
+    # the plan the code had before fix bcb96bc must stay refuted
+    rb = C.tlc('FillPlan', 'MC_FillPlan_before_fix.cfg', name='fillplan-before-fix')
+    if rb.violated != 'ShortcutOnlyIfUniform':
+        raise C.Machinery('TLC no longer refutes the fill plan without the length comparison: ' + rb.out[-800:])
+    chk.cov['refuted_variant_fill_plan_without_length_comparison'] = rb.violated
+    if tier != 'quick':
+        rf = C.tlc('FillPlan', 'MC_FillPlan.cfg', name='fillplan-enumerated')
+        chk.add_tlc(rf)
+        if rf.violated:
+            chk.violation(dict(kind='spec-invariant', invariant=rf.violated), dict(tail=rf.out[-2000:]))
+        elif not rf.ok:
+            raise C.Machinery('TLC failed on FillPlan: ' + rf.out[-1500:])
     fill_plan_binding(chk, tier)
     history_binding(chk, tier)          # real kernel: before the surrogate is installed
     alljobs = list(jobs(chk, tier))
